@@ -31,6 +31,8 @@ def run(repo: Repo, chk: Check) -> None:
     accept_path(repo, chk)
     template_arity(repo, chk)
     pattern_matches(repo, chk)
+    template_rows(repo, chk)
+    parallel_columns(repo, chk)
     flexibility(repo, chk)
     wiring(repo, chk)
     select(repo, chk)
@@ -254,6 +256,66 @@ def pattern_matches(repo: Repo, chk: Check) -> None:
                    "result rows of the schedule operand are never dropped before the comparison",
                    "result rows of the *schedule* operand's matrix are dropped before the subspace comparison: an operand with more "
                    "result dimensions than the template addresses is accepted")
+
+
+def parallel_columns(repo: Repo, chk: Check) -> None:
+    """a temporal loop is a reduction for the output iff the output does not move in it: its column of the output's matrix is all zero. A column whose entries
+    cancel (+1 on one index, -1 on another) moves the output"""
+    f, fl = flow_of(repo, chk, SCHED, "is_pure_output_stationary")
+    chk.rule("C16.parallel-columns", "is_pure_output_stationary classifies a loop by `any entry of its output column != 0`, never by the sum of the column", floor=1)
+    hits = [n for n in ast.walk(f.node) if isinstance(n, ast.Call) and ((callee_name(n) == "any" and any(isinstance(k, ast.keyword) and k.arg == "axis" for k in n.keywords)))]
+    sums = [n for n in ast.walk(f.node) if isinstance(n, ast.Call) and callee_name(n) in ("sum", "mean", "prod") and any(isinstance(k, ast.keyword) and k.arg == "axis" for k in n.keywords)]
+    if not hits and not sums:
+        raise AnalysisError(f"{f.where}: the column test of the output schedule was not found")
+    ok = bool(hits) and not sums and all(any(isinstance(c_, ast.Compare) and isinstance(c_.ops[0], ast.NotEq) for c_ in ast.walk(h_)) for h_ in hits)
+    where = f"{f.module.relpath}:{(sums or hits)[0].lineno}"
+    chk.result(ok, "C16.parallel-columns", f"{f.key}:column-test", where, "a loop is parallel iff some entry of its output column is non-zero",
+               f"the loop type is decided by `{ast.unparse((sums or hits)[0])[:70]}`: a parallel loop whose output strides cancel is taken for a reduction, and schedules with a true reduction "
+               "loop outside of it pass the output-stationary constraint")
+
+
+def template_rows(repo: Repo, chk: Check) -> None:
+    """rows of the template are dropped from the front by a COUNT (template rows minus schedule rows). A negative count is not "drop nothing": as a slice start it
+    counts from the end and keeps only the last rows of the template"""
+    f, fl = flow_of(repo, chk, AP, "TemplatePattern.matches")
+    chk.rule("C16.template-rows", "a row slice of the template matrix starts at a count that is known to be non-negative where the slice is taken (test or clamp)", floor=1)
+    n_ = 0
+    for s in fl.stmts(ast.Assign):
+        if not s.reachable:
+            continue
+        for sub in ast.walk(s.node.value):
+            if not (isinstance(sub, ast.Subscript) and (norm.match(T("self.pattern.A"), sub.value) is not None or (s.state.alts and all(
+                    norm.match(T("self.pattern.A"), norm.primary(__import__("sa.flow", fromlist=["expand"]).expand(sub.value, dict(alt.env)))) is not None for alt in s.state.alts)))):
+                continue
+            sl = sub.slice.elts[0] if isinstance(sub.slice, ast.Tuple) and sub.slice.elts else sub.slice
+            if not (isinstance(sl, ast.Slice) and sl.lower is not None):
+                continue
+            n_ += 1
+            lo = sl.lower
+            lo_e = norm.primary(s.expand(lo))
+            clamped = any(isinstance(c_, ast.Call) and callee_name(c_) == "max" for c_ in ast.walk(lo_e)) or (bool(s.state.alts) and all(
+                any(isinstance(c_, ast.Call) and callee_name(c_) == "max" for c_ in ast.walk(__import__("sa.flow", fromlist=["expand"]).expand(lo, dict(alt.env)))) for alt in s.state.alts))
+            from sa.flow import expand as _expand
+
+            def _alt_tested(alt) -> bool:
+                v_ = norm.canon(norm.primary(_expand(lo, dict(alt.env))))
+                for fa in [*alt.facts.values(), *s.extra]:
+                    if fa.kind == "atom" and (norm.any_match(["$v > 0", "$v >= 0", "$v >= 1", "0 < $v", "0 <= $v"], fa.expr, {"v": v_}) is not None
+                                              or norm.any_match(["$v > 0", "$v >= 0", "$v >= 1", "0 < $v", "0 <= $v"], fa.expr, {"v": lo}) is not None):
+                        return True
+                    # `a - b > 0` may be kept as `a > b`
+                    if fa.kind == "atom" and isinstance(v_, ast.BinOp) and isinstance(v_.op, ast.Sub) and norm.any_match(["$a > $b", "$b < $a"], fa.expr, {"a": v_.left, "b": v_.right}) is not None:
+                        return True
+                return False
+
+            tested = bool(s.state.alts) and all(_alt_tested(alt) for alt in s.state.alts)
+            const_ok = isinstance(lo_e, ast.Constant) and isinstance(lo_e.value, int) and lo_e.value >= 0
+            chk.result(clamped or tested or const_ok, "C16.template-rows", f"{f.key}:slice#{n_}", s.where(), "the slice start is non-negative here",
+                       f"`{ast.unparse(sub)[:60]}` is taken where `{ast.unparse(lo)[:40]}` may be negative (a schedule operand with more result rows than the template operand): "
+                       "the slice then keeps only the LAST rows of the template, patterns that span a part of the template's subspace are accepted and full ones rejected", s.fact_texts)
+    if n_ == 0:
+        chk.floors["C16.template-rows"] = 0
+        chk.observe("C16.template-rows not evaluated: no row slice of the template matrix with a computed start found")
 
 
 def flexibility(repo: Repo, chk: Check) -> None:
